@@ -161,6 +161,16 @@ class Check:
             "wall_s": round(time.time() - self.t0, 2),
             "violations": len(real),
         }
+        try:
+            import facts as _facts
+            ren = {}
+            for cfgname, fx in _facts._loaded.items():
+                for k, v in fx.renames.items():
+                    ren.setdefault(k, v)
+            # items read under their frozen names (moved between modules, generic parameters renamed): rules/canon.py
+            ev["coverage"]["canonicalised_names"] = dict(sorted(ren.items())[:200])
+        except Exception:
+            pass
         ev["coverage"].update(getattr(self, "extra_cov", {}))
         with open(os.path.join(EVID, self.pid + ".json"), "w") as fh:
             json.dump(ev, fh, indent=1, default=str)
